@@ -6,6 +6,7 @@ axioms a run relied on.
 import ast
 
 import z3
+from pyvc.values import FA
 
 from .interp import (Interp, CallArgs, PyRaise, LibFn, LibRef, Function, BoundMethod, Closure, Partial, Coroutine,
                      Awaitable, Env, EnumeratedSeq, RangeSeq, StarSeq, TMATCH, attr_fn, STR_OF)
@@ -237,11 +238,11 @@ class ModelRegistry:
         i, j = z3.Ints('qi qj')
         v = z3.Const('qv', PyV)
         idx = st.fresh_func(hint + '_idx', PyV, IntS)
-        st.assume(z3.ForAll([i], z3.Implies(z3.And(i >= 0, i < seq.len), symset.contains(seq.at(i))),
+        st.assume(FA([i], z3.Implies(z3.And(i >= 0, i < seq.len), symset.contains(seq.at(i))),
                             patterns=[seq.at(i)]))
-        st.assume(z3.ForAll([i], z3.Implies(z3.And(i >= 0, i < seq.len), idx(seq.at(i)) == i),
+        st.assume(FA([i], z3.Implies(z3.And(i >= 0, i < seq.len), idx(seq.at(i)) == i),
                             patterns=[seq.at(i)]))
-        st.assume(z3.ForAll([v], z3.Implies(symset.contains(v),
+        st.assume(FA([v], z3.Implies(symset.contains(v),
                                             z3.And(idx(v) >= 0, idx(v) < seq.len, seq.at(idx(v)) == v)),
                             patterns=[symset.contains(v)]))
         return seq
@@ -268,8 +269,8 @@ class ModelRegistry:
         i = z3.Int('qi')
         v_ = z3.Const('qv', PyV)
         idx = st.fresh_func('setof_idx', PyV, IntS)
-        st.assume(z3.ForAll([i], z3.Implies(z3.And(i >= 0, i < seq.len), s.contains(seq.at(i))), patterns=[seq.at(i)]))
-        st.assume(z3.ForAll([v_], z3.Implies(s.contains(v_), z3.And(idx(v_) >= 0, idx(v_) < seq.len, seq.at(idx(v_)) == v_)),
+        st.assume(FA([i], z3.Implies(z3.And(i >= 0, i < seq.len), s.contains(seq.at(i))), patterns=[seq.at(i)]))
+        st.assume(FA([v_], z3.Implies(s.contains(v_), z3.And(idx(v_) >= 0, idx(v_) < seq.len, seq.at(idx(v_)) == v_)),
                             patterns=[s.contains(v_)]))
         return it.new_set(s)
 
@@ -287,7 +288,7 @@ class ModelRegistry:
                 base = it.dict_sym(d)
                 k = z3.Const('qk', PyV)
                 new = SymMap.fresh(st, 'upd')
-                st.assume(z3.ForAll([k], z3.And(
+                st.assume(FA([k], z3.And(
                     new.has(k) == z3.Or(base.has(k), m.has(k)),
                     new.at(k) == z3.If(m.has(k), m.at(k), base.at(k))), patterns=[new.has(k), new.at(k)]))
                 st.setf(d, 'map', new)
@@ -322,7 +323,14 @@ class ModelRegistry:
             return it.eval(e.elt, sub)
 
         cond_v = it.eval_merged(body_cond, 'bool')
+        kept = list(getattr(it, 'last_merged_assumptions', []))
         elt_v = it.eval_merged(body_elt, 'val')
+        kept += list(getattr(it, 'last_merged_assumptions', []))
+        from z3 import z3util
+        for f in kept:
+            if any(z3.eq(v_, k) for v_ in z3util.get_vars(f)):
+                raise Unsupported('comprehension body calls a function whose contract result is not an explicit '
+                                  'term of the state (result_term missing)')
         cond_t = as_z3(as_bool_term(cond_v))
         elt_t = lift(elt_v, st)
         kk = z3.Int('qk')
@@ -333,23 +341,24 @@ class ModelRegistry:
             s = SymSet.fresh(st, 'comp')
             v = z3.Const('qv', PyV)
             wit = st.fresh_func('comp_wit', PyV, IntS)
-            st.assume(z3.ForAll([kk], z3.Implies(z3.And(kk >= 0, kk < base.len, cond_f(kk)), s.contains(elt_f(kk))),
+            st.assume(FA([kk], z3.Implies(z3.And(kk >= 0, kk < base.len, cond_f(kk)), s.contains(elt_f(kk))),
                                 patterns=[base.at(kk)]))
-            st.assume(z3.ForAll([v], z3.Implies(s.contains(v), z3.And(wit(v) >= 0, wit(v) < base.len, cond_f(wit(v)),
+            st.assume(FA([v], z3.Implies(s.contains(v), z3.And(wit(v) >= 0, wit(v) < base.len, cond_f(wit(v)),
                                                                   elt_f(wit(v)) == v)), patterns=[s.contains(v)]))
             return it.new_set(s)
         out = SymSeq.fresh(st, 'comp')
         src = st.fresh_func('comp_src', IntS, IntS)     # result index -> source index (strictly increasing)
         dst = st.fresh_func('comp_dst', IntS, IntS)     # source index -> result index
         j, j2 = z3.Ints('qj qj2')
-        st.assume(z3.ForAll([j], z3.Implies(z3.And(j >= 0, j < out.len),
+        st.assume(FA([j], z3.Implies(z3.And(j >= 0, j < out.len),
                                             z3.And(src(j) >= 0, src(j) < base.len, cond_f(src(j)),
                                                    out.at(j) == elt_f(src(j)), dst(src(j)) == j)),
                             patterns=[out.at(j)]))
-        st.assume(z3.ForAll([j, j2], z3.Implies(z3.And(j >= 0, j < j2, j2 < out.len), src(j) < src(j2)),
+        st.assume(FA([j, j2], z3.Implies(z3.And(j >= 0, j < j2, j2 < out.len), src(j) < src(j2)),
                             patterns=[z3.MultiPattern(src(j), src(j2))]))
-        st.assume(z3.ForAll([kk], z3.Implies(z3.And(kk >= 0, kk < base.len, cond_f(kk)),
-                                             z3.And(dst(kk) >= 0, dst(kk) < out.len, src(dst(kk)) == kk)),
+        st.assume(FA([kk], z3.Implies(z3.And(kk >= 0, kk < base.len, cond_f(kk)),
+                                             z3.And(dst(kk) >= 0, dst(kk) < out.len, src(dst(kk)) == kk,
+                                                    out.at(dst(kk)) == elt_f(kk))),
                             patterns=[base.at(kk)]))
         res = it.new_list(out)
         it.st.ghost.setdefault('comp', {})[res.id] = dict(base=base, out=out, src=src, dst=dst, cond=cond_f, elt=elt_f)
@@ -373,7 +382,7 @@ class ModelRegistry:
         body = z3.And(k >= 0, k < seq.len, truthy_term(seq.at(k))) if is_any else \
             z3.Implies(z3.And(k >= 0, k < seq.len), truthy_term(seq.at(k)))
         used(it, 'any()/all(): existential / universal over the sequence')
-        return wrap_bool(z3.Exists([k], body) if is_any else z3.ForAll([k], body))
+        return wrap_bool(z3.Exists([k], body) if is_any else FA([k], body))
 
     def hash_(self, it, v):
         raise Unsupported('hash()')
@@ -508,9 +517,9 @@ class ModelRegistry:
         out = SymSeq.fresh(st, 'ext')
         k = z3.Int('qe')
         st.assume(out.len == a.len + b.len)
-        st.assume(z3.ForAll([k], z3.Implies(z3.And(k >= 0, k < a.len), out.at(k) == a.at(k)), patterns=[out.at(k)]))
-        st.assume(z3.ForAll([k], z3.Implies(z3.And(k >= 0, k < b.len), out.at(a.len + k) == b.at(k)), patterns=[b.at(k)]))
-        st.assume(z3.ForAll([k], z3.Implies(z3.And(k >= a.len, k < out.len), out.at(k) == b.at(k - a.len)), patterns=[out.at(k)]))
+        st.assume(FA([k], z3.Implies(z3.And(k >= 0, k < a.len), out.at(k) == a.at(k)), patterns=[out.at(k), a.at(k)]))
+        st.assume(FA([k], z3.Implies(z3.And(k >= 0, k < b.len), out.at(a.len + k) == b.at(k)), patterns=[b.at(k)]))
+        st.assume(FA([k], z3.Implies(z3.And(k >= a.len, k < out.len), out.at(k) == b.at(k - a.len)), patterns=[out.at(k)]))
         st.setf(l, 'items', out)
 
     def to_symseq(self, it, items):
@@ -562,7 +571,7 @@ class ModelRegistry:
         b = self.symset_of(it, st.getf(o, 'elems'))
         used(it, 'set.intersection: pointwise conjunction of membership')
         v = z3.Const('qv', PyV)
-        return it.new_set(SymSet(z3.Lambda([v], z3.And(a.contains(v), b.contains(v)))))
+        return it.new_set(SymSet.comprehension(st, v, z3.And(a.contains(v), b.contains(v)), 'inter'))
 
     def deque_new(self, it, ca):
         seq = it.iter_seq(ca.args[0]) if ca.args else ()
@@ -654,7 +663,7 @@ class DictValues:
         out = SymSeq.fresh(st, 'values')
         k = z3.Int('qv')
         st.assume(out.len == keys.len)
-        st.assume(z3.ForAll([k], z3.Implies(z3.And(k >= 0, k < out.len), out.at(k) == m.at(keys.at(k))),
+        st.assume(FA([k], z3.Implies(z3.And(k >= 0, k < out.len), out.at(k) == m.at(keys.at(k))),
                             patterns=[out.at(k)]))
         out.keys = None
         return out
@@ -671,7 +680,7 @@ class DictItems:
         out = SymSeq.fresh(st, 'items')
         k = z3.Int('qv')
         st.assume(out.len == keys.len)
-        st.assume(z3.ForAll([k], z3.Implies(z3.And(k >= 0, k < out.len),
+        st.assume(FA([k], z3.Implies(z3.And(k >= 0, k < out.len),
                                             out.at(k) == PyV.tup2(keys.at(k), m.at(keys.at(k)))),
                             patterns=[out.at(k)]))
         return out
